@@ -293,6 +293,11 @@ def run(spec):
         # likewise: starting at the log's end points although the group has a stored offset is an application
         # rewind / skip, outside "resume from the committed position"
         sc["stored"] = None
+    if sc["cfg"]["reset"] == "latest":
+        # with nothing committed, auto_offset_reset=LATEST skips to the end of the log by configuration: messages
+        # delivered to an earlier life and never committed are then passed over on purpose, which is not what this
+        # property is about
+        sc["cfg"]["reset"] = "earliest"
     # coordinator errors on the commit / offset-fetch path itself (the generic generator draws them rarely)
     frng = random.Random(spec["seed"] ^ 0xE14)
     if sc["cfg"]["group"] and frng.random() < 0.5:
